@@ -127,7 +127,7 @@ func decisionOf(fn *ssa.Function, idx int) []conj {
 			c.lits[a] = pol
 		}
 		for _, cd := range alt.Conds {
-			if _, isPhi := cd.V.(*ssa.Phi); isPhi && isBool(cd.V.Type()) && shortCircuitPhi(cd.V.(*ssa.Phi)) >= 0 {
+			if ph, isPhi := cd.V.(*ssa.Phi); isPhi && isBool(cd.V.Type()) && mergePhi(ph) {
 				continue // replaced by its operands (condsDNF / expandConds)
 			}
 			add(litOf(cd))
@@ -240,7 +240,30 @@ func normAtom(a string, pol bool) (string, bool) {
 
 // checkDecision compares the function's decision with the reviewed one, value by value.
 func checkDecision(r *Report, rule, key string, fn *ssa.Function, idx int, want []string) {
-	cur, rev := decisionOf(fn, idx), parseDecision(want)
+	checkDecisionRows(r, rule, key, fn, decisionOf(fn, idx), parseDecision(want))
+}
+
+// checkDecisionFor compares the conditions of one result value only (the other values are
+// whatever is left).
+func checkDecisionFor(r *Report, rule, key string, fn *ssa.Function, idx int, val string, want []string) {
+	only := func(cs []conj) []conj {
+		var out []conj
+		for _, c := range cs {
+			if c.val == val {
+				out = append(out, c)
+			}
+		}
+		return out
+	}
+	cur := only(decisionOf(fn, idx))
+	if len(cur) == 0 {
+		r.Fail(rule, key+"/returns-"+val+"-exactly-when-reviewed", fn.Pos(), "no path returns %s", val)
+		return
+	}
+	checkDecisionRows(r, rule, key, fn, cur, only(parseDecision(want)))
+}
+
+func checkDecisionRows(r *Report, rule, key string, fn *ssa.Function, cur, rev []conj) {
 	// a guard moved between a function and the qualifiers it calls changes both tables and not what is
 	// decided: when the tables differ as written, they are compared once more with the calls of reviewed
 	// functions replaced by those functions' own decisions (decisionCallees)
@@ -333,27 +356,15 @@ func checkDecision(r *Report, rule, key string, fn *ssa.Function, idx int, want 
 	}
 }
 
-// shortCircuitPhi: ph is the value of `a && b` or `a || b` (every edge but one
-// a boolean constant, all the same); returns the index of the other edge, or -1.
-func shortCircuitPhi(ph *ssa.Phi) int {
-	idx, n := -1, 0
-	var k *bool
-	for i, e := range ph.Edges {
-		if b, ok := constBool(e); ok {
-			if k != nil && *k != b {
-				return -1
-			}
-			bb := b
-			k = &bb
-			continue
+// mergePhi: ph joins forward branches only (not a loop-carried flag), so each of its edges
+// is one way of getting its value.
+func mergePhi(ph *ssa.Phi) bool {
+	for _, p := range ph.Block().Preds {
+		if ph.Block().Dominates(p) {
+			return false
 		}
-		idx = i
-		n++
 	}
-	if n != 1 || k == nil {
-		return -1
-	}
-	return idx
+	return len(ph.Edges) > 1
 }
 
 // condsDNF expands conditions on short-circuit values into the ways they can
@@ -362,30 +373,22 @@ func condsDNF(cs []Cond, depth int) [][]Cond {
 	out := [][]Cond{{}}
 	for _, c := range cs {
 		alts := [][]Cond{{c}}
-		if ph, isPhi := c.V.(*ssa.Phi); isPhi && isBool(ph.Type()) && depth > 0 {
-			if i := shortCircuitPhi(ph); i >= 0 {
-				var k bool
-				for j, e := range ph.Edges {
-					if j != i {
-						k, _ = constBool(e)
+		if ph, isPhi := c.V.(*ssa.Phi); isPhi && isBool(ph.Type()) && depth > 0 && mergePhi(ph) {
+			// a boolean assigned on several branches and tested after they join (`a && b`, `a || b`,
+			// a flag set in the arms of a switch): one way per incoming edge - the edge was taken and
+			// the value it carries is the one asked for
+			alts = nil
+			for j, e := range ph.Edges {
+				via := CondsOfEdge(ph.Block().Preds[j], ph.Block())
+				if k, isC := constBool(e); isC {
+					if k != c.Pol {
+						continue
 					}
+				} else {
+					via = append(via, Cond{e, c.Pol, c.If})
 				}
-				alts = nil
-				// through the edge that carries the second operand
-				via := append(CondsOfEdge(ph.Block().Preds[i], ph.Block()), Cond{ph.Edges[i], c.Pol, c.If})
 				for _, sub := range condsDNF(via, depth-1) {
 					alts = append(alts, append([]Cond{c}, sub...))
-				}
-				// through a short-circuiting edge, when the constant is the value asked for
-				if k == c.Pol {
-					for j := range ph.Edges {
-						if j == i {
-							continue
-						}
-						for _, sub := range condsDNF(CondsOfEdge(ph.Block().Preds[j], ph.Block()), depth-1) {
-							alts = append(alts, append([]Cond{c}, sub...))
-						}
-					}
 				}
 			}
 		}
